@@ -18,7 +18,7 @@ import lena.core
 
 NAMES = ["__call__", "run", "fill", "compute", "request", "fill_into", "_can_break_flow", "__iter__",
          "custom"]
-ADAPTERS = ["Call", "Run", "FillInto", "FillCompute", "SourceEl"]
+ADAPTERS = ["Call", "Run", "FillInto", "FillCompute", "SourceEl", "Sequence"]
 DEFAULT = "<default>"
 MISSING = "no_such_method"
 NAME_ARGS = [DEFAULT] + NAMES + [MISSING]
@@ -170,6 +170,10 @@ def expected(adapter, el, args):
     """Readings of the docstring for adapter(el, **args). *args* maps the adapter's method-name
     keyword(s) to a name, DEFAULT meaning "not passed". For Run the special value ("function", f)
     means Run(None, run=f)."""
+    if adapter == "Sequence":
+        # "*args* are objects which implement a method run(flow) or callables ... see Run": an element of
+        # a Sequence is what Run(el) accepts, and means what Run(el) means
+        return expected("Run", el, {"run": DEFAULT})
     if adapter in ("Call", "SourceEl"):
         name = args["call"]
         if name != DEFAULT:
@@ -309,7 +313,7 @@ def exercise(adapter, A, el):
         return _guard(lambda: _plain_result(A(7)), el)
     if adapter == "SourceEl":
         return _guard(lambda: _consume(A()), el)
-    if adapter == "Run":
+    if adapter in ("Run", "Sequence"):
         return _guard(lambda: _consume(A.run(iter(list(CANNED_FLOW)))), el)
     if adapter == "FillCompute":
         return _guard(lambda: [_plain_result(A.fill(7)), _plain_result(A.fill(8)),
@@ -325,6 +329,8 @@ def exercise(adapter, A, el):
 
 def direct(adapter, rule, twin, args):
     """What the docstring says the accepted adapter does, performed on the twin element."""
+    if adapter == "Sequence":
+        return direct("Run", rule, twin, {"run": DEFAULT})
     if adapter == "Call":
         f = twin if rule == "callable" else getattr(twin, args["call"])
         return _guard(lambda: _plain_result(f(7)), twin)
@@ -383,6 +389,8 @@ def arg_lists(adapter, names):
         return [{"call": n} for n in names]
     if adapter == "Run":
         return [{"run": n} for n in names]
+    if adapter == "Sequence":
+        return [{}]
     if adapter == "FillInto":
         return [{"fill_into": n} for n in names]
     if adapter == "FillCompute":
